@@ -69,6 +69,7 @@ def run(rep, tier):
                    "consts/exception table/localspluskinds for 3.x producers); identifier fields of 1.x/2.x stay text; TYPE_UNICODE uses surrogatepass")
     rep.rule("R6", "the portable class selected for a version stores every field of that version's layout (no field read and then dropped)")
     rep.rule("R7", "NULL terminator distinguishable; dict reader terminates only on it")
+    rep.rule("R9", "TYPE_LONG: |n| 16-bit digits are read, digit j contributes digit << 15*j, the result is negated exactly when n < 0")
     rep.rule("R8", "interned-string table discipline")
     T = tables()
     acc, readers = reader_obligations(rep, T)
